@@ -48,17 +48,14 @@ class InterpolatedCurveBase(FunctionCurveBase, abc.ABC):
         """Returns the length of this curve by summing distance between
         points. The 'count' parameter is ignored as the original points are taken."""
         param_from, param_to = self._get_params(param_from, param_to)
+        param_min, param_max = min(param_from, param_to), max(param_from, param_to)
 
-        index_from = int(param_from * self.segments) + 1
-        index_to = int(param_to * self.segments)
+        # the curve passes through the original points at the interpolator's own parameters
+        # (which are not evenly spaced when points are not); take those that lie between the given parameters
+        inner = [self.array[i] for i, t in enumerate(self.function.params) if param_min < t < param_max]
+        points = [self.function(param_min), *inner, self.function(param_max)]
 
-        if index_from < index_to:
-            indexes = list(range(index_from, index_to + 1))
-        else:
-            indexes = []
-
-        params = [param_from, *[i / self.segments for i in indexes[:-1]], param_to]
-        return f.polyline_length(np.array([self.function(t) for t in params]))
+        return f.polyline_length(np.array(points))
 
 
 class LinearInterpolatedCurve(InterpolatedCurveBase):
